@@ -108,6 +108,19 @@ def _perform_dead_code_elimination(self):
         return True
     return False
 '''
+# the same method with the liveness guard (only an input that is still part of the graph is optimised)
+_SRC_DCE_GUARD = '''
+def _perform_dead_code_elimination(self):
+    if not self._descendants:
+        for input in self.inputs:
+            if isinstance(input, UGen) and input._descendants:
+                input._descendants.REMOVE(self)
+                if self._synthdef._children[input._synth_index] is input:
+                    input._optimize_graph()
+        self._synthdef._remove_ugen(self)
+        return True
+    return False
+'''
 
 
 def _fn(src):
@@ -157,10 +170,13 @@ def gen_opcodes(repo, gendir):
                     return ast.Attribute(value=node.value, attr='REMOVE', ctx=node.ctx)
                 return node
         norm = V().visit(fd)
-        if len(modes) != 1 or _dump(norm) != _fn(_SRC_DCE):
+        shape = _dump(norm)
+        if len(modes) != 1 or shape not in (_fn(_SRC_DCE), _fn(_SRC_DCE_GUARD)):
             raise Refused('_perform_dead_code_elimination is not the method the model transcribes')
         out.append('(* input._descendants.%s(self) *)\nDefinition dce_strict : bool := %s.\n' % (
             modes[0], 'true' if modes[0] == 'remove' else 'false'))
+        out.append('(* `if self._synthdef._children[input._synth_index] is input:` guards input._optimize_graph() *)\n'
+                   'Definition dce_guard : bool := %s.\n' % ('true' if shape == _fn(_SRC_DCE_GUARD) else 'false'))
     except (Refused, SyntaxError, OSError) as e:
         errors.append({'target': 'Gen_opcodes', 'error': 'dead code elimination: %s' % e})
     _write(os.path.join(gendir, 'Gen_opcodes.v'), '\n'.join(out))
